@@ -13,8 +13,9 @@ fn node_id(s: &State) -> u64 {
 }
 fn children_of(id: u64) -> u64 {
     let n = (unsafe { ORACLE[0] } >> (2 * id)) & 3;
-    if n == 3 {
-        2
+    let cap = unsafe { ORACLE[1] }; // 1 or 2: the largest branching factor of this run
+    if n >= cap {
+        cap
     } else {
         n
     }
@@ -80,8 +81,31 @@ fn spec_perft(id: u64, depth: u32) -> u64 {
 #[kani::stub(weechess_core::MoveGenerator::compute_legal_moves_into, stub_legal_moves_into)]
 #[kani::stub(std::vec::Vec::push, stub_vec_push)]
 fn c01_perft_counts_the_legal_tree() {
+    perft_obligation(2, 2)
+}
+
+/// lighter variant for the quick tier: chains (at most one legal move per node) of depth <= 2
+#[kani::proof]
+#[kani::unwind(8)]
+#[kani::stub(weechess_core::MoveGenerator::compute_legal_moves_into, stub_legal_moves_into)]
+#[kani::stub(std::vec::Vec::push, stub_vec_push)]
+fn c01_perft_chain() {
+    perft_obligation(1, 2)
+}
+
+/// lighter variant for the quick tier: depth 1 with up to two legal moves (the leaf-counting branch)
+#[kani::proof]
+#[kani::unwind(8)]
+#[kani::stub(weechess_core::MoveGenerator::compute_legal_moves_into, stub_legal_moves_into)]
+#[kani::stub(std::vec::Vec::push, stub_vec_push)]
+fn c01_perft_depth_one() {
+    perft_obligation(2, 1)
+}
+
+fn perft_obligation(max_branching: u64, max_depth: u32) {
     unsafe {
         ORACLE = kani::any();
+        ORACLE[1] = max_branching;
         CALLBACKS = [0; 4];
     }
     let mut p = [weechess_core::BitBoard::ZERO; 16];
@@ -94,8 +118,9 @@ fn c01_perft_counts_the_legal_tree() {
         None,
         weechess_core::Clock { halfmove_clock: 0, fullmove_number: 1 },
     );
-    let depth: u32 = kani::any();
-    kani::assume(depth <= 2);
+    // the depth is concrete per harness: the recursion then bottoms out concretely (a symbolic number of buffers makes
+    // CBMC unwind the recursion to the global bound at every level)
+    let depth: u32 = max_depth;
     // the buffers perft() would create, with small capacity (the push model asserts it suffices)
     let mut buffers: Vec<MoveGenerationBuffer> = Vec::with_capacity(2);
     let mut d = 0;
@@ -117,7 +142,6 @@ fn c01_perft_counts_the_legal_tree() {
         let cb = unsafe { CALLBACKS };
         assert!(cb[0] == children_of(0) && cb[1] == spec_perft(0, 2));
     }
-    kani::cover!(depth == 2 && count == 4, "full binary tree reachable");
-    kani::cover!(depth == 1 && count == 1, "single move reachable");
-    kani::cover!(depth == 0, "depth 0 reachable");
+    kani::cover!(count as u64 == if max_depth == 2 { max_branching * max_branching } else { max_branching }, "full tree reachable");
+    kani::cover!(count == 0, "empty tree reachable");
 }
